@@ -128,6 +128,23 @@ fn run(ctx: &Ctx) -> Run {
             }
         }
     });
+    // parents at the hostile places (face edges and their vicinity, dodecahedron vertices, face centres, poles, the rings where
+    // the projection switches formulas), found by lookups
+    let hostile = parallel(threads, |w, run| {
+        let mut rng = ctx.rng("C12.hostile", w);
+        let fr = gen::Frame::new();
+        let n = ctx.n(80_000, 3_000_000) / threads as u64;
+        for _ in 0..n {
+            let class = *rng.pick(&["seam", "seam", "dvertex", "edgemid", "fcentre", "polar", "polar", "switch", "tseam", "antimeridian"]);
+            let (lon, lat) = gen::point(&mut rng, &fr, class);
+            let res = (gen::random_res(&mut rng)).min(28);
+            if let Some(c) = lookup(lon, lat, res).ok().and_then(decode) {
+                check_parent(run, c, class);
+                run.count(&format!("class.{class}"));
+            }
+        }
+    });
+    out.merge(hostile);
     for res in 0..=exhaustive_to {
         if out.counters.get(&format!("exhaustive.res{res:02}")).copied().unwrap_or(0) as u128 != num_cells(res) {
             out.inconclusive(format!("exhaustive pass did not visit every cell of resolution {res}"));
